@@ -12,10 +12,77 @@ CORR, PROPCHK = 'C19_corr', 'C19_prop'
 THEOREMS = ['C19_only_redundant_rows_deleted', 'C19_first_kept', 'C19_changed_kept', 'C19_example']
 RULE = ('random version tables (both strategies, flat/composite keys, default/custom column names) with sticky values so '
         'that equal neighbours and A,B,A / A,B,A,A patterns are frequent, first versions that are UPDATEs; vacuum(session, '
-        'Article) is called, session.deleted recorded, the session committed and the table read back. Non-trivial: some '
+        'Article) is called (and, on a joined-table hierarchy TextItem <- Article whose rows are loaded into both version tables, '
+        'vacuum(session, TextItem) with the BASE class, versions of subclass entities often differing only in the child '
+        'table\'s column), session.deleted recorded, the session committed and the table read back. Non-trivial: some '
         'entity with >= 3 versions containing a value sequence that returns to an earlier value, or composite keys whose '
         'first column coincides. Distinct: hash of the canonical input.')
 ASSUMPTIONS = ['naturally_equivalent (SQLAlchemy-Utils) compares every mapped non-primary-key column of the version class']
+
+
+JOINED = [dict(strategy=st, keyshape='int', names='default', shape='joined') for st in ('subquery', 'validity')]
+
+
+def build_joined(env, Base, opts):
+    """Joined-table inheritance: TextItem(id, a) <- Article(b). Keys 1, 3 are Articles, keys 2, 4 plain TextItems."""
+    import sqlalchemy as sa
+
+    class TextItem(Base):
+        __tablename__ = 'text_item'
+        __versioned__ = opts
+        id = sa.Column(sa.Integer, primary_key=True, autoincrement=False)
+        a = sa.Column(sa.Integer)
+        type = sa.Column(sa.Unicode(20))
+        __mapper_args__ = {'polymorphic_on': type, 'polymorphic_identity': 'base'}
+
+    class Article(TextItem):
+        __tablename__ = 'article'
+        __mapper_args__ = {'polymorphic_identity': 'article'}
+        id = sa.Column(sa.Integer, sa.ForeignKey(TextItem.id), primary_key=True)
+        b = sa.Column(sa.Integer)
+    env.Article, env.Child = TextItem, Article        # vacuum is called with the BASE class
+
+
+def _is_child(key):
+    return key[0] % 2 == 1
+
+
+def load_joined(env, cfg, rows):
+    conn = env.connection
+    bt, ct = env.version_class(env.Article).__table__, env.version_class(env.Child).__table__
+    for t in (ct, bt, env.Child.__table__, env.Article.__table__):
+        conn.execute(t.delete())
+    base, child = [], []
+    for r in rows:
+        d = dict(id=r['key'][0], transaction_id=r['tx'], operation_type=r['op'])
+        if cfg['strategy'] == 'validity':
+            d['end_transaction_id'] = r['end']
+        base.append(dict(d, a=r['dat'][0], type='article' if _is_child(r['key']) else 'base'))
+        if _is_child(r['key']):
+            child.append(dict(d, b=r['dat'][1]))
+    if base:
+        conn.execute(bt.insert(), base)
+    if child:
+        conn.execute(ct.insert(), child)
+    conn.commit()
+
+
+def read_joined(env, cfg):
+    import sqlalchemy as sa
+    conn = env.connection
+    bt, ct = env.version_class(env.Article).__table__, env.version_class(env.Child).__table__
+    b = {(r['id'], r['transaction_id']): r for r in conn.execute(sa.select(bt)).mappings()}
+    c = {(r['id'], r['transaction_id']): r for r in conn.execute(sa.select(ct)).mappings()}
+    out = []
+    for k in sorted(set(b) | set(c)):
+        rb, rc = b.get(k), c.get(k)
+        src = rb if rb is not None else rc
+        # a row present in only one of the two tables shows as the value -99 in the column of the missing part
+        out.append(dict(key=[k[0]], tx=k[1], end=src['end_transaction_id'] if cfg['strategy'] == 'validity' else None,
+                        op=src['operation_type'],
+                        dat=[rb['a'] if rb is not None else -99,
+                             (rc['b'] if rc is not None else -99) if _is_child([k[0]]) else (None if rc is None else -99)]))
+    return out
 
 
 def budget(tier):
@@ -39,6 +106,21 @@ def gen_cases(rng, n, tier):
             for r in rows:
                 r['dat'] = [rng.choice(vals), 0]
         out.append(dict(cfg=cfg, rows=rows))
+    # joined-table inheritance, vacuum called with the base class: versions of a subclass entity often differ only in
+    # the column of the child table
+    for i in range(max(8, n // 6)):
+        cfg = JOINED[i % 2]
+        rows = T.gen_table(rng, cfg, maxlen=6)
+        if rng.random() < 0.8:
+            for r in rows:
+                r['op'] = 1
+        if cfg['strategy'] == 'validity' and rng.random() < 0.7:
+            for r in rows:
+                r['end'] = None
+        av, bv = [rng.choice([None, 1]), rng.choice([1, 1, 2])], [rng.choice([None, 1]), rng.choice([1, 2]), 3]
+        for r in rows:
+            r['dat'] = [rng.choice(av), rng.choice(bv) if _is_child(r['key']) else None]
+        out.append(dict(cfg=cfg, rows=rows))
     return out
 
 
@@ -48,12 +130,16 @@ def corpus():
     cc = dict(strategy='subquery', keyshape='composite', names='default')
     comp = [dict(key=[1, 1], tx=1, end=None, op=1, dat=[5, 0]), dict(key=[1, 2], tx=2, end=None, op=1, dat=[5, 0]),
             dict(key=[1, 1], tx=3, end=None, op=1, dat=[6, 0]), dict(key=[1, 2], tx=4, end=None, op=1, dat=[6, 0])]
-    return [dict(cfg=c, rows=aba), dict(cfg=cc, rows=comp)]
+    # joined hierarchy: an Article (key 1) whose versions differ only in the child table's column, and back
+    jn = [dict(key=[1], tx=t, end=None, op=1, dat=[5, v]) for t, v in ((1, 1), (2, 2), (3, 1), (4, 1))] + \
+         [dict(key=[2], tx=t, end=None, op=1, dat=[v, None]) for t, v in ((1, 1), (3, 1), (5, 2))]
+    return [dict(cfg=c, rows=aba), dict(cfg=cc, rows=comp), dict(cfg=JOINED[0], rows=jn)]
 
 
 def _observe(env, cfg, rows):
     from sqlalchemy_continuum import vacuum
-    T.load_rows(env, cfg, rows)
+    joined = cfg.get('shape') == 'joined'
+    load_joined(env, cfg, rows) if joined else T.load_rows(env, cfg, rows)
     txc, endc = T.colnames(cfg)
     kc = T.keycols(cfg)
     s = env.session()
@@ -62,7 +148,7 @@ def _observe(env, cfg, rows):
         V = env.version_class(env.Article)
         deleted = sorted([[getattr(o, c) for c in kc], getattr(o, txc)] for o in s.deleted if isinstance(o, V))
         s.commit()
-        after = T.read_rows(env, cfg)
+        after = read_joined(env, cfg) if joined else T.read_rows(env, cfg)
         return dict(deleted=deleted, after=after, exc=None)
     except Exception as e:
         s.rollback()
@@ -74,7 +160,7 @@ def _observe(env, cfg, rows):
 def _worker(chunk):
     cfg, items = chunk
     out = []
-    with E.Env(options=T.cfg_options(cfg), build=T.build_article(cfg)) as env:
+    with E.Env(options=T.cfg_options(cfg), build=build_joined if cfg.get('shape') == 'joined' else T.build_article(cfg)) as env:
         for idx, rows in items:
             out.append((idx, _observe(env, cfg, rows)))
     return out
@@ -115,7 +201,7 @@ def nontrivial(case, obs):
 
 
 def features(case, obs):
-    return ['strategy=' + case['cfg']['strategy'], 'key=' + case['cfg']['keyshape'],
+    return ['strategy=' + case['cfg']['strategy'], 'key=' + case['cfg']['keyshape'], 'shape=' + case['cfg'].get('shape', 'flat'),
             'deleted=%d' % min(len(obs['deleted']), 6)]
 
 
